@@ -56,30 +56,39 @@ Section C08.
   Variable clause_result : env -> txn -> nat -> Z -> state W -> cres W O.
   Variable write_credit : Z -> Z -> Z -> W -> W.
 
-  (* The EVM is an oracle, but what a clause does to funds is NOT assumed to conserve anything: a clause result lists the ledger
-     primitives the clause performed (cr_ops) and its effect on the ledger is apply_ops of that list (TxExec.Model.cres_state).
-     The only premise, clause_ops_ok dom: the primitives of a non-failing clause are transfers / energy moves / self-destructs
-     (clause_kind: not the fee operations, which belong to the wrapper) and touch only addresses of the finite set dom over which
-     the totals are taken.  This is what the harness checks on real code: every leaf's change is explained by the receipt's
-     transfers and energy events. *)
+  (* The EVM is an oracle.  That a clause moves funds ONLY through ledger primitives is part of the oracle's TYPE: a clause result
+     carries cr_ops : list op and its effect on the ledger is apply_ops of that list (TxExec.Model.cres_state) — this is assumed
+     by typing, not proved about an EVM, and it is what the harness checks on real code (every leaf's change is explained by the
+     receipt's transfers and energy events).  What the primitives conserve is then proved, not assumed.
+     The premises are PER EXECUTION: tx_ops_ok dom e t ci st0 speaks about the clauses this transaction actually executes on this
+     state (tx_effects): the primitives of its non-failing clauses are transfers / energy moves / self-destructs (clause_kind: not
+     the wrapper's fee operations) and touch only addresses of dom.  dom may depend on the transaction and the state; for a block
+     it is the union of the per-transaction sets (effs_ok_mono), and flow_ops_ok asks tx_ops_ok of exactly the adopted
+     transactions on the states they are adopted on. *)
 
   (* 4. one transaction, EXACT: total VTHO after = before + reward - paid - VTHO burned by self-destructs to self; total VET
         after = before - VET burned.  tx_burned is (0,0) when the transaction reverts (state restored). *)
   Theorem tx_totals_exact e t ci st0 st rc dom :
     let T := e_time e in let S := e_stop e in
-    clause_ops_ok W O clause_result dom -> NoDup dom -> In (r_payer O rc) dom -> In (e_benef e) dom ->
+    tx_ops_ok W O clause_result dom e t ci st0 -> NoDup dom -> In (r_payer O rc) dom -> In (e_benef e) dom ->
     exec_tx W O clause_result write_credit e t ci st0 = Done W O st rc ->
     sum_eng T S dom (l_acc (fst st)) =
       sum_eng T S dom (l_acc (fst st0)) + r_reward O rc - r_paid O rc - snd (tx_burned W O clause_result e t ci st0) /\
     sum_bal dom (l_acc (fst st)) = sum_bal dom (l_acc (fst st0)) - fst (tx_burned W O clause_result e t ci st0).
   Proof. exact (tx_totals_exact_lemma W O clause_result write_credit e t ci st0 st rc dom). Qed.
 
+  (* a per-transaction address set may be enlarged (to the block's union) *)
+  Theorem tx_ops_ok_mono dom dom' e t ci st0 :
+    incl dom dom' -> tx_ops_ok W O clause_result dom e t ci st0 -> tx_ops_ok W O clause_result dom' e t ci st0.
+  Proof. intros I. exact (effs_ok_mono W O dom dom' _ I). Qed.
+
   (* 5. a whole block (adopted txs, rejected ones reverted, staking reward when PoS is active), EXACT, F5 blocks included:
         total VTHO after = before + sum of rewards - sum of paid + staking reward - burned; total VET after = before - burned,
         burned = sum over the adopted transactions of what their self-destructs to self destroyed (flow_burned) *)
   Theorem block_totals_exact e dom txs st staking deleg used st' rcs :
     let T := e_time e in let S := e_stop e in
-    clause_ops_ok W O clause_result dom -> NoDup dom -> In (e_benef e) dom -> In deleg dom ->
+    flow_ops_ok W O clause_result write_credit dom e 0 txs st -> NoDup dom -> In (e_benef e) dom ->
+    (match staking with Some _ => In deleg dom | None => True end) ->
     block_flow W O clause_result write_credit e txs st staking deleg = (used, st', rcs) ->
     Forall (fun rc => In (r_payer O rc) dom) rcs ->
     sum_eng T S dom (l_acc (fst st')) =
@@ -92,7 +101,7 @@ Section C08.
   (* 5a. the same for the packer's Adopt in full (all pre-checks, known-tx and dependency bookkeeping) *)
   Theorem flow_full_totals_exact e fe dom txs fs st fs' st' rcs :
     let T := e_time e in let S := e_stop e in
-    clause_ops_ok W O clause_result dom -> NoDup dom -> In (e_benef e) dom ->
+    flow_full_ops_ok W O clause_result write_credit dom e fe fs txs st -> NoDup dom -> In (e_benef e) dom ->
     adopt_all_full W O clause_result write_credit e fe fs txs st [] = (fs', st', rcs) ->
     Forall (fun rc => In (r_payer O rc) dom) rcs ->
     sum_eng T S dom (l_acc (fst st')) = sum_eng T S dom (l_acc (fst st)) + sum_reward O rcs - sum_paid O rcs
@@ -100,16 +109,16 @@ Section C08.
     sum_bal dom (l_acc (fst st')) = sum_bal dom (l_acc (fst st)) - fst (flow_full_burned W O clause_result write_credit e fe fs txs st).
   Proof.
     intros T S N ND HB H HP.
-    destruct (adopt_all_full_totals W O clause_result write_credit e fe dom N ND HB txs fs st [] fs' st' rcs H HP) as [new [E [A B]]].
+    destruct (adopt_all_full_totals W O clause_result write_credit e fe dom ND HB txs fs st [] fs' st' rcs N H HP) as [new [E [A B]]].
     cbn in E. subst new. split; assumption.
   Qed.
 
-  (* 5c. the property's sentences as stated, for every block none of whose clauses self-destructs to itself: VET conserved, VTHO
-         changes by rewards - paid + staking reward *)
+  (* 5c. the property's sentences as stated, for every block in which no executed clause of an adopted transaction self-destructs
+         to itself: VET conserved, VTHO changes by rewards - paid + staking reward *)
   Theorem vtho_delta_block e dom txs st staking deleg used st' rcs :
     let T := e_time e in let S := e_stop e in
-    clause_ops_ok W O clause_result dom -> no_self_destruct_to_self W O clause_result ->
-    NoDup dom -> In (e_benef e) dom -> In deleg dom ->
+    flow_ops_ok W O clause_result write_credit dom e 0 txs st -> flow_no_self W O clause_result write_credit e 0 txs st ->
+    NoDup dom -> In (e_benef e) dom -> (match staking with Some _ => In deleg dom | None => True end) ->
     block_flow W O clause_result write_credit e txs st staking deleg = (used, st', rcs) ->
     Forall (fun rc => In (r_payer O rc) dom) rcs ->
     sum_eng T S dom (l_acc (fst st')) =
@@ -119,12 +128,12 @@ Section C08.
   Proof.
     intros T S N NS ND HB HD H HP.
     destruct (block_totals_exact_lemma W O clause_result write_credit e dom txs st staking deleg used st' rcs N ND HB HD H HP) as [A B].
-    rewrite (flow_burned_none W O clause_result write_credit NS) in A, B. cbn [fst snd] in A, B. fold T S in A. split; lia.
+    rewrite (flow_burned_none W O clause_result write_credit e txs 0 st NS) in A, B. cbn [fst snd] in A, B. fold T S in A. split; lia.
   Qed.
 
   Theorem vtho_delta_tx e t ci st0 st rc dom :
     let T := e_time e in let S := e_stop e in
-    clause_ops_ok W O clause_result dom -> no_self_destruct_to_self W O clause_result ->
+    tx_ops_ok W O clause_result dom e t ci st0 -> tx_no_self W O clause_result e t ci st0 ->
     NoDup dom -> In (r_payer O rc) dom -> In (e_benef e) dom ->
     exec_tx W O clause_result write_credit e t ci st0 = Done W O st rc ->
     sum_eng T S dom (l_acc (fst st)) = sum_eng T S dom (l_acc (fst st0)) + r_reward O rc - r_paid O rc /\
@@ -132,18 +141,20 @@ Section C08.
   Proof.
     intros T S N NS ND HP HB H.
     destruct (tx_totals_exact_lemma W O clause_result write_credit e t ci st0 st rc dom N ND HP HB H) as [A B].
-    rewrite (tx_burned_none W O clause_result NS) in A, B. cbn [fst snd] in A, B. fold T S in A. split; lia.
+    rewrite (tx_burned_none W O clause_result e t ci st0 NS) in A, B. cbn [fst snd] in A, B. fold T S in A. split; lia.
   Qed.
 
-  (* 5b. per account (dom = [a]) and over any address set no clause touches: exactly the payer is charged gasUsed x price (= r_paid,
-         C07 gas_bounds), exactly the beneficiary receives the reward, nobody else's VTHO moves *)
+  (* 5b. per account (dom = [a]) and over any address set for which the executed clauses are energy-quiet (every primitive is a
+         VET transfer or touches no address of the set — so also a payer that sends or receives VET in its clauses): exactly the
+         payer is charged gasUsed x price (= r_paid, C07 gas_bounds), exactly the beneficiary receives the reward, nobody else's
+         VTHO moves; VET of the set unchanged when no primitive touches it *)
   Theorem energy_delta_any_set e t ci st0 st rc dom :
     let T := e_time e in let S := e_stop e in
-    clause_ops_avoid W O clause_result dom -> NoDup dom ->
+    tx_ops_quiet W O clause_result dom e t ci st0 -> NoDup dom ->
     exec_tx W O clause_result write_credit e t ci st0 = Done W O st rc ->
     sum_eng T S dom (l_acc (fst st)) = sum_eng T S dom (l_acc (fst st0))
         + (if member (e_benef e) dom then r_reward O rc else 0) - (if member (r_payer O rc) dom then r_paid O rc else 0) /\
-    sum_bal dom (l_acc (fst st)) = sum_bal dom (l_acc (fst st0)).
+    (tx_ops_avoid W O clause_result dom e t ci st0 -> sum_bal dom (l_acc (fst st)) = sum_bal dom (l_acc (fst st0))).
   Proof. exact (energy_delta_any_set_lemma W O clause_result write_credit e t ci st0 st rc dom). Qed.
 
   (* 6. the price is the effective price of the transaction (legacy: base price scaled by the coefficient; dynamic: min(maxFee,
@@ -244,9 +255,10 @@ Definition tx_b := mkTx true 99999 [mkClause (Some 2) 0 0 5; mkClause (Some 7) 0
 Definition tx_c := mkTx true 200000 [mkClause (Some 2) 0 0 5] 0 5 0 1 true None true 0 0 0 false.
 Definition dom8 := [1; 2; 7; 77; 88].
 
-Example ex8_clause_ops_ok : clause_ops_ok Z Z ex8_oracle dom8 /\ NoDup dom8.
+Example ex8_clause_ops_ok : clause_ops_ok Z Z ex8_oracle dom8 /\ NoDup dom8 /\
+  (forall e t ci st0, tx_ops_ok Z Z ex8_oracle dom8 e t ci st0).
 Proof.
-  split; [|repeat constructor; cbn; intuition discriminate].
+  assert (G : clause_ops_ok Z Z ex8_oracle dom8); [|split; [exact G|split; [repeat constructor; cbn; intuition discriminate|apply clause_ops_ok_tx; exact G]]].
   intros e t i g st _ o Ho. cbn in Ho. destruct (Nat.eqb i 0).
   - destruct Ho as [<-|[<-|[]]]; (split; [reflexivity|intros a Ha; cbn in Ha; cbn; intuition (subst; auto)]).
   - destruct Ho as [<-|[]]. split; [reflexivity|intros a Ha; cbn in Ha; cbn; intuition (subst; auto)].
@@ -264,6 +276,66 @@ Example ex8_block : exists st rcs,
   view 100 1000 (fst st) 88 = (0, 2100) /\ view 100 1000 (fst st) 7 = (0, 0).
 Proof. eexists _, _. cbv zeta. split; [vm_compute; reflexivity|]. vm_compute. repeat split; reflexivity. Qed.
 
+(* an oracle whose touched addresses DEPEND ON THE TRANSACTION: every clause transfers its value from the transaction's origin to
+   the clause's target.  No single finite set serves all transactions; the per-execution premise is discharged by a theorem for
+   EVERY transaction with dom = origin :: targets (ex9_tx_ops_ok), two transactions with disjoint address sets {1,2} and {3,4}
+   are packed into one block, and vtho_delta_block is APPLIED (not just evaluated) with the union. *)
+Definition ex9_oracle (_ : env) (t : txn) (i : nat) (g : Z) (st : state Z) : cres Z Z :=
+  mkCres Z Z (g / 2) 0 false
+         (match nth_error (t_clauses t) i with
+          | Some c => match c_to c with Some to => [OTransfer (t_origin t) to (c_value c)] | None => [] end
+          | None => [] end) (snd st) 0.
+Definition targets (t : txn) : list Z := flat_map (fun c => match c_to c with Some a => [a] | None => [] end) (t_clauses t).
+
+Lemma ex9_tx_ops_ok e t ci st0 : tx_ops_ok Z Z ex9_oracle (t_origin t :: targets t) e t ci st0 /\ tx_no_self Z Z ex9_oracle e t ci st0.
+Proof.
+  assert (K : forall p o, In p (tx_effects Z Z ex9_oracle e t ci st0) -> In o (cr_ops Z Z (snd p)) ->
+              exists c to, In c (t_clauses t) /\ c_to c = Some to /\ o = OTransfer (t_origin t) to (c_value c)).
+  { intros p o Hp Ho. destruct (tx_effects_in Z Z ex9_oracle _ _ _ _ _ Hp) as [j [g [s E]]]. rewrite E in Ho. cbn in Ho.
+    destruct (nth_error (t_clauses t) j) as [c|] eqn:N; [|contradiction]. destruct (c_to c) as [to|] eqn:T; [|contradiction].
+    destruct Ho as [<-|[]]. exists c, to. split; [eapply nth_error_In; exact N|split; [exact T|reflexivity]]. }
+  split.
+  - intros p Hp _ o Ho. destruct (K p o Hp Ho) as [c [to [Hc [Ht ->]]]]. split; [reflexivity|].
+    intros a [<-|[<-|[]]]; [left; reflexivity|right]. unfold targets. apply in_flat_map. exists c. split; [exact Hc|rewrite Ht; left; reflexivity].
+  - intros p o Hp Ho. destruct (K p o Hp Ho) as [c [to [_ [_ ->]]]]. reflexivity.
+Qed.
+
+Definition ex9_env := mkEnv 100 1000 5 3 10000000 (Some 10000000000000) 1000000000000000 300000000000000000 77 10.
+Definition ex9_led : ledger :=
+  mkL (fun a => if a =? 1 then mkAcc 1000 90000000000000000000 50 else if a =? 3 then mkAcc 500 80000000000000000000 60 else empty_acc) 0 0 0.
+Definition tx9a := mkTx true 100000 [mkClause (Some 2) 0 0 7] 0 20000000000000 500 1 true None true 0 0 0 false.
+Definition tx9b := mkTx true 100000 [mkClause (Some 4) 0 0 9] 0 20000000000000 500 3 true None true 0 0 0 false.
+Definition dom9 := [1; 2; 3; 4; 77].
+
+Example ex9_block_conserves : forall used st' rcs,
+  block_flow Z Z ex9_oracle ex8_wc ex9_env [(tx9a, ex8_ci); (tx9b, ex8_ci)] (ex9_led, 0) None 0 = (used, st', rcs) ->
+  sum_bal dom9 (l_acc (fst st')) = 1500 /\
+  sum_eng 100 1000 dom9 (l_acc (fst st')) = 170000000000000000000 + sum_reward Z rcs - sum_paid Z rcs /\
+  map (r_payer Z) rcs = [1; 3] /\ view 100 1000 (fst st') 2 = (7, 0) /\ view 100 1000 (fst st') 4 = (9, 0).
+Proof.
+  intros used st' rcs H.
+  assert (OK : flow_ops_ok Z Z ex9_oracle ex8_wc dom9 ex9_env 0 [(tx9a, ex8_ci); (tx9b, ex8_ci)] (ex9_led, 0)).
+  { cbn [flow_ops_ok flow_forall]. unfold flow_ops_ok. cbn [flow_forall].
+    destruct (adopt _ _ _ _ _ _ _ _ _) as [s1|s1 r1].
+    - destruct (adopt _ _ _ _ _ _ _ _ _); [exact I|split; [|exact I]].
+      eapply tx_ops_ok_mono; [|apply (ex9_tx_ops_ok ex9_env tx9b)]. intros a [<-|[<-|[]]]; cbn; tauto.
+    - split; [eapply tx_ops_ok_mono; [|apply (ex9_tx_ops_ok ex9_env tx9a)]; intros a [<-|[<-|[]]]; cbn; tauto|].
+      destruct (adopt _ _ _ _ _ _ _ _ _); [exact I|split; [|exact I]].
+      eapply tx_ops_ok_mono; [|apply (ex9_tx_ops_ok ex9_env tx9b)]. intros a [<-|[<-|[]]]; cbn; tauto. }
+  assert (NS : flow_no_self Z Z ex9_oracle ex8_wc ex9_env 0 [(tx9a, ex8_ci); (tx9b, ex8_ci)] (ex9_led, 0)).
+  { apply flow_forall_global. intros t ci st. apply ex9_tx_ops_ok. }
+  assert (ND : NoDup dom9) by (repeat constructor; cbn; intuition discriminate).
+  assert (P : map (r_payer Z) rcs = [1; 3] /\ view 100 1000 (fst st') 2 = (7, 0) /\ view 100 1000 (fst st') 4 = (9, 0)).
+  { vm_compute in H. inversion H; subst. vm_compute. repeat split; reflexivity. }
+  assert (HP : Forall (fun rc => In (r_payer Z rc) dom9) rcs).
+  { destruct P as [P _]. clear - P. destruct rcs as [|a [|b [|c r]]]; try discriminate. cbn in P. inversion P as [[Pa Pb]].
+    repeat constructor; [rewrite Pa|rewrite Pb]; cbn; tauto. }
+  destruct (vtho_delta_block Z Z ex9_oracle ex8_wc ex9_env dom9 _ _ None 0 used st' rcs OK NS ND ltac:(cbn; tauto) I H HP) as [A B].
+  split; [rewrite B; vm_compute; reflexivity|]. split; [|exact P].
+  change (e_time ex9_env) with 100 in A. change (e_stop ex9_env) with 1000 in A. rewrite A.
+  replace (sum_eng 100 1000 dom9 (l_acc (fst (ex9_led, 0)))) with 170000000000000000000 by (vm_compute; reflexivity). lia.
+Qed.
+
 Print Assumptions ledger_totals_exact.
 Print Assumptions vet_conserved_partial.
 Print Assumptions suicide_self_burns.
@@ -271,6 +343,7 @@ Print Assumptions vet_conserved_refuted.
 Print Assumptions ledger_untouched.
 Print Assumptions vtho_delta.
 Print Assumptions tx_totals_exact.
+Print Assumptions tx_ops_ok_mono.
 Print Assumptions block_totals_exact.
 Print Assumptions flow_full_totals_exact.
 Print Assumptions vtho_delta_block.
